@@ -79,7 +79,7 @@ PROPS = {
         "level": "proof",
         "harness": ["gwrun", "purediff"],
         "stages": [("pure", stage_pure, {"suites": ["ressub"], "n_quick": 4000, "n_thorough": 60000}),
-                   ("gw", stage_gw, {"profiles": [("basic", 150, 1000), ("refs", 350, 3000), ("churn", 350, 3000), ("access", 200, 1500), ("scacc", 250, 2000), ("reset", 250, 1500), ("accrefs", 200, 1500), ("query", 150, 1000), ("legacy", 250, 2000), ("legacyacc", 150, 1000), ("wild", 0, 1500)]})],
+                   ("gw", stage_gw, {"profiles": [("basic", 150, 1000), ("refs", 350, 3000), ("churn", 350, 3000), ("access", 200, 1500), ("scacc", 250, 2000), ("reset", 250, 1500), ("accrefs", 200, 1500), ("query", 150, 1000), ("legacy", 250, 2000), ("legacyacc", 150, 1000), ("scgraph", 250, 2000), ("wild", 0, 1500)]})],
         "rule": "random histories of the real gateway under the harness scheduler (every connection task, cache task and hooked goroutine "
                 "granted one at a time): 2 clients, 3-4 resources with reference graphs (sharing, cycles, self references), "
                 "subscribe/unsubscribe/get, service change/add/remove/custom events made unique by a fresh tag, answers in any order; "
@@ -95,7 +95,7 @@ PROPS = {
         "coq": ["Props/C02.v"],
         "level": "proof",
         "harness": ["gwrun"],
-        "stages": [("gw", stage_gw, {"profiles": [("refs", 400, 4000), ("churn", 400, 4000), ("accrefs", 300, 2000), ("reset", 250, 1500), ("access", 200, 1000), ("legacy", 200, 1500), ("gets", 0, 1500), ("wild", 0, 1500)]})],
+        "stages": [("gw", stage_gw, {"profiles": [("refs", 400, 4000), ("churn", 400, 4000), ("accrefs", 300, 2000), ("reset", 250, 1500), ("access", 200, 1000), ("legacy", 200, 1500), ("scgraph", 300, 2500), ("gets", 0, 1500), ("wild", 0, 1500)]})],
         "rule": "as C01 with reference-changing events and unsubscribes; the reference client (Spec/Client.v) retains what is reachable from "
                 "direct subscriptions and outstanding subscribe/get requests; after every frame: no dangling reference, no event for an "
                 "unheld resource, right kind, index in range; non-trivial = more than 4 client frames and a quiescent point",
@@ -108,7 +108,7 @@ PROPS = {
         "coq": ["Props/C03.v"],
         "level": "proof",
         "harness": ["gwrun"],
-        "stages": [("gw", stage_gw, {"profiles": [("basic", 200, 2000), ("refs", 300, 3000), ("churn", 300, 3000), ("access", 250, 2000), ("scacc", 250, 2000), ("reset", 300, 2000), ("accrefs", 200, 1500), ("legacy", 200, 1500), ("wild", 0, 1500)]})],
+        "stages": [("gw", stage_gw, {"profiles": [("basic", 200, 2000), ("refs", 300, 3000), ("churn", 300, 3000), ("access", 250, 2000), ("scacc", 250, 2000), ("reset", 300, 2000), ("accrefs", 200, 1500), ("legacy", 200, 1500), ("scgraph", 250, 2000), ("wild", 0, 1500)]})],
         "rule": "as C01; every service event carries a unique tag; per client and resource the delivered events must be a contiguous run "
                 "of the service stream (candidate-position tracking, no false alarm on repeated identical events), nothing missing at quiescence",
         "assumptions": ["no resets/query events in this stage (superseded events are not exercised)"],
